@@ -228,10 +228,24 @@ class MetadataGenerator:
         list_types: List[DList] = []
         dict_types: List[DDict] = []
         other_types: List[MetaData] = []
-        for item in t.types:
+
+        # Members of unions nested in Optional (i.e. made by merge_field_sets) should be simplified together with the rest
+        items: List[MetaData] = []
+
+        def flatten(item: MetaData):
             if isinstance(item, DOptional):
-                item = item.type
-                other_types.append(Null)
+                items.append(Null)
+                flatten(item.type)
+            elif isinstance(item, DUnion):
+                for nested in item.types:
+                    flatten(nested)
+            else:
+                items.append(item)
+
+        for item in t.types:
+            flatten(item)
+
+        for item in items:
             if isinstance(item, dict):
                 types_to_merge.append(item)
             elif item in self.str_types_registry or item is str:
